@@ -361,6 +361,8 @@ def _cli_case(draw):
         "append_photon": draw(st.booleans()),
         "append_cr": draw(st.booleans()),
     }
+    # the electron has two spellings (e-, E) that denote one species everywhere in naunet (C15): the options may use either
+    opts["electron_as"] = draw(st.sampled_from(["e-", "e-", "E"]))
     return {"kind": "cli", "names": names, "reactions": rs, "opts": opts}
 
 
@@ -387,10 +389,11 @@ def run_cli(case, failures):
         app.add(ExtendCommand())
         tester = CommandTester(app.find("extend"))
         args = ["in.naunet", "out.naunet"]
+        spell = lambda xs: [o.get("electron_as", "e-") if x == "e-" else x for x in xs]
         if o["remove_species"]:
-            args.append("--remove-species=" + ",".join(o["remove_species"]))
+            args.append("--remove-species=" + ",".join(spell(o["remove_species"])))
         if o["reduce_by_species"]:
-            args.append("--reduce-by-species=" + ",".join(o["reduce_by_species"]))
+            args.append("--reduce-by-species=" + ",".join(spell(o["reduce_by_species"])))
         for flag, key in (("--remove-duplicate", "remove_duplicate"), ("--append-depletion", "append_depletion"), ("--append-thermal-desorption", "append_thermal"), ("--append-photon-desorption", "append_photon"), ("--append-cosmic-ray-desorption", "append_cr")):
             if o[key]:
                 args.append(flag)
@@ -477,7 +480,9 @@ def check_case(case, tier):
     failures = []
     if case["kind"] == "cli":
         run_cli(case, failures)
-        labels = ["cli-extend"] + [k for k, v in case["opts"].items() if v]
+        labels = ["cli-extend"] + [k for k, v in case["opts"].items() if v and k != "electron_as"]
+        if case["opts"].get("electron_as") == "E" and "e-" in case["opts"]["remove_species"] + case["opts"]["reduce_by_species"]:
+            labels.append("electron-spelled-E-in-option")
         return CaseResult(failures, True, labels, sample={"extend": case["opts"], "n": len(case["reactions"])})
     labels, nontrivial = run_api(case, failures)
     return CaseResult(failures, nontrivial, ["api-history"] + sorted(labels), sample={"ops": case["ops"][:10], "alphabet": [f"{' + '.join(r['r'])} -> {' + '.join(r['p'])}" for r in case["alphabet"]]})
